@@ -152,8 +152,12 @@ def pipeline(c, nflow, npar, nscen, seed_off=0, par_exec=0, race=False, progs=No
     if binary is None:
         viol("C13", "generated code does not compile:\n" + err[-2000:], dict(kind="gen-corpus", seed_off=seed_off, nflow=nflow, npar=npar))
         # go on with the programs whose files do compile: what they do is still to be judged
-        for attempt in range(4):
-            badfiles = {(m.group(1), m.group(2)) for m in re.finditer(r"(?m)^(\w+)/(\w+)_gen\.go:\d+", err)}
+        for attempt in range(8):
+            badfiles = set()
+            for m in re.finditer(r"(?m)^(?:(\w+)/)?([\w.]+?)(?:_gen)?\.go:\d+", err):
+                for pkg in pk:          # positions may name the source file (line directives) and omit the directory
+                    if (m.group(1) in (None, pkg)) and os.path.exists(os.path.join(root, pkg, m.group(2) + ".go")):
+                        badfiles.add((pkg, m.group(2)))
             if not badfiles:
                 break
             for pkg, stem in badfiles:
